@@ -32,18 +32,20 @@ MissingUids(tree) == {s.uid : s \in {t \in SlotsOf(tree) : Missing(t)}}
 NumMissingIn(seq) == Cardinality({j \in DOMAIN seq : Missing(seq[j])})
 AnyMissing(tree) == \E s \in SlotsOf(tree) : Missing(s)
 
-(* <<id, uid>> pairs that exist in post on a statement that lacked a reference in pre *)
+(* <<id, uid>> pairs that exist in post on a statement that lacked a reference in pre.  (Written with set membership
+   instead of nested quantifiers over pairs of statements so that trees with thousands of statements stay cheap for TLC;
+   uids are unique within a tree.) *)
 NewPairs(pre, post) ==
-  {<<t.ref, t.uid>> : t \in {x \in SlotsOf(post) :
-        /\ x.kind = "plain" /\ x.ref # NoRef
-        /\ \E u \in SlotsOf(pre) : u.uid = x.uid /\ Missing(u)}}
+  LET preMissing == {u.uid : u \in {t \in SlotsOf(pre) : Missing(t)}} IN
+  {<<t.ref, t.uid>> : t \in {x \in SlotsOf(post) : x.kind = "plain" /\ x.ref # NoRef /\ x.uid \in preMissing}}
 
 Ids(pairs) == {pr[1] : pr \in pairs}
 
 (* statements that existed before and after must keep kind and (if they had one) reference *)
 ExistingKept(pre, post) ==
-  \A u \in SlotsOf(pre) : \A x \in SlotsOf(post) :
-     (u.uid = x.uid /\ ~Missing(u)) => (x.ref = u.ref /\ x.kind = u.kind)
+  LET postU == {x.uid : x \in SlotsOf(post)}
+      postT == {<<x.uid, x.ref, x.kind>> : x \in SlotsOf(post)} IN
+  \A u \in SlotsOf(pre) : (~Missing(u) /\ u.uid \in postU) => <<u.uid, u.ref, u.kind>> \in postT
 
 -----------------------------------------------------------------------------
 (* C01 *)
